@@ -300,6 +300,10 @@ static void scenario(const vh::Json& sc, vh::Out& out, vh::Rng& rng, const vh::A
       for (int i = 0; i < n; ++i) { w.O().kv("cls", fr[i].cls).kv("m", fr[i].m).kv("sec", fr[i].sec).kv("usec", fr[i].usec).kv("w", fr[i].how).kv("wok", fr[i].wok).kv("want", fr[i].want).kv("why", fr[i].foreign).key("mm").A(); for (size_t x = 0; x < fl.size(); ++x) w.v(mm[i][x] != 0); w.E(); w.E(); }
       w.E().key("fokl").A(); for (size_t x = 0; x < fl.size(); ++x) w.v(lok[x] != 0); w.E().E(); out.event(w); }
 
+    // ---- before the reader under test: two other readers of the same file have been at work in this process - a dissecting one and a
+    //      raw-extracting one, one packet each (readers are independent objects: what one of them was configured to do is its own business)
+    if (out.sid % 3 == 1) { try { FileSniffer a(pf); (void)a.next_packet(); } catch (std::exception&) {}
+                            try { FileSniffer b(pf); b.set_extract_raw_pdus(true); (void)b.next_packet(); } catch (std::exception&) {} }
     // ---- read back with Tins::FileSniffer
     std::unique_ptr<FileSniffer> sn; std::string oexc = "none"; int omode = (int)rng.below(4);
     try {
